@@ -6,6 +6,7 @@ package vgirpc
 import (
 	"bytes"
 	"compress/gzip"
+	"errors"
 	"fmt"
 	"io"
 	"log/slog"
@@ -134,7 +135,7 @@ func decompressBounded(encoding string, data []byte, maxOutput int64) ([]byte, e
 			var header zstd.Header
 			if err := header.Decode(data); err == nil && header.HasFCS &&
 				header.FrameContentSize > uint64(maxOutput) {
-				return nil, &requestBodyTooLargeError{Limit: maxOutput}
+				return nil, &decodedBodyTooLargeError{Limit: maxOutput}
 			}
 		}
 		opts := []zstd.DOption{}
@@ -174,10 +175,15 @@ func decompressBounded(encoding string, data []byte, maxOutput int64) ([]byte, e
 		out, err = io.ReadAll(reader)
 	}
 	if err != nil {
+		// A later frame whose declared size overflows the cap is reported by
+		// the decoder itself; it is the same refusal as the bounded read's.
+		if maxOutput > 0 && errors.Is(err, zstd.ErrDecoderSizeExceeded) {
+			return nil, &decodedBodyTooLargeError{Limit: maxOutput}
+		}
 		return nil, fmt.Errorf("%s decompression: %w", encoding, err)
 	}
 	if maxOutput > 0 && int64(len(out)) > maxOutput {
-		return nil, &requestBodyTooLargeError{Limit: maxOutput}
+		return nil, &decodedBodyTooLargeError{Limit: maxOutput}
 	}
 	return out, nil
 }
